@@ -313,7 +313,9 @@ func (d *modelDP) call(op, kind string, seid, id uint64) bool {
 	case "update", "query":
 		ok = !scripted && present
 	case "remove":
-		if present {
+		// "rmfail": the data plane refuses to remove an INSTALLED rule (monitor-only phases; the Coq model's data plane
+		// removes whatever is installed)
+		if present && !d.fail[fmt.Sprintf("rmfail/%s/%d", kind, id)] {
 			delete(d.rules, key)
 			ok = true
 		}
